@@ -92,7 +92,10 @@ theorem mkRowX_of_mkRow (cols : List Str) (sec : List Str) (r : Row) (h : mkRow 
         · rw [if_neg h1] at h ⊢
           by_cases h2 : (kvs.map (·.1) != cols) = true
           · rw [if_pos h2] at h; simp at h
-          · rw [if_neg h2] at h ⊢
+          · rw [if_neg h2] at h
+            have h3 : (kvs.map (·.1) == cols) = true := by
+              simpa [bne, Bool.not_eq_true'] using h2
+            rw [if_pos h3]
             cases hm : kvs.mapM convTilt with
             | none => rw [hm] at h; simp at h
             | some cells =>
